@@ -2,6 +2,7 @@ package acmelib
 
 import (
 	"fmt"
+	"math"
 	"slices"
 	"strings"
 )
@@ -440,6 +441,16 @@ func (m *Message) UpdateSizeByte(newSizeByte int) error {
 
 	if m.sizeByte == newSizeByte {
 		return nil
+	}
+
+	// the size in bits must be representable
+	if newSizeByte > math.MaxInt/8 {
+		return m.errorf(
+			&MessageSizeError{
+				Size: newSizeByte,
+				Err:  ErrTooBig,
+			},
+		)
 	}
 
 	if m.hasSenderNodeInt() {
